@@ -5,9 +5,10 @@ CONSTANTS
     Events <- MC_Events
     FixF8 = TRUE
     FixF9 = TRUE
+    AndClaimsUnique = FALSE
     CarveF17 = FALSE
     Emit = FALSE
     MaxExtras = 2
     Tier = "small"
-INVARIANTS TypeOK AttrKeysUnique EveryPropOnce FirstWins WellKnownLifted Total Refines
+INVARIANTS TypeOK UniqueClaimSound AttrKeysUnique EveryPropOnce FirstWins WellKnownLifted Total Refines
 CHECK_DEADLOCK FALSE
